@@ -291,7 +291,9 @@ func runC20b(e *env, tier string) {
 		I := shadow.Update(progress)
 		req := time.Duration(rounds[k].nreq) * latency
 		got := rounds[k+1].at.Sub(rounds[k].at)
-		intervals = append(intervals, got)
+		if rounds[k+1].at.Before(deadline) {
+			intervals = append(intervals, got) // steady-state statistics only while production lasts
+		}
 		lo := I
 		hi := max(I, req) + min(req, I/2)
 		r.Steps++
